@@ -174,6 +174,10 @@ def run(ctx, chk):
                 if r:
                     want = P(1) if nm == "SeqSlice" else ("seqview", P(1))
                     chk.ob("R-view", nm + "::as_ref", r.ret == want, "as_ref = %s, expected the deref view of self" % show(r.ret), b["span"])
+    import core as _core
+    for cfg in ctx.configs():
+        chk.cfg = cfg.name
+        _core.import_codec_core(chk, cfg)      # the symbols' own tables (C05)
     chk.floor("index rows over all configurations", nforms, 7 * len(chk.configs))
 
 
